@@ -110,6 +110,7 @@ pub fn campaign(target: &str, seed: u64, runs: u64, procs: usize, max_len: usize
     let mut execs = 0u64;
     let mut crashes = 0u64;
     let mut inconclusive = 0u64;
+    let mut hang_reported = false;
     for (p, mut c) in children {
         let _ = c.wait();
         let log = std::fs::read_to_string(format!("{base}/log-{p}.txt")).unwrap_or_default();
@@ -134,6 +135,22 @@ pub fn campaign(target: &str, seed: u64, runs: u64, procs: usize, max_len: usize
                         }
                         _ => st.notes.push(format!("libFuzzer reported a crash on {} that the in-process oracle does not reproduce", hex(&data))),
                     }
+                } else if name.starts_with("timeout-") && target == "total" && !hang_reported {
+                    // a unit that took more than libFuzzer's time-out: decided by the CPU limit of C03
+                    match fuzzdec::total_case(&data).map(|t| crate::checks::c03::judge_with_deadline(&t)) {
+                        Some(Ok(Verdict::Fail(m))) => {
+                            // (the thread that handles this input keeps running: further time-outs of
+                            // this campaign are not judged in this process)
+                            hang_reported = true;
+                            if st.failures.len() < MAX_FAILURES {
+                                st.failures.push(Failure { case: case_json(target, &data), msg: m });
+                            }
+                        }
+                        _ => {
+                            inconclusive += 1;
+                            st.notes.push(format!("libFuzzer {name}: not over the CPU limit when run alone: inconclusive (not a violation)"));
+                        }
+                    }
                 } else if name.starts_with("timeout-") || name.starts_with("oom-") {
                     inconclusive += 1;
                     st.notes.push(format!("libFuzzer {name}: inconclusive (not a violation)"));
@@ -148,7 +165,7 @@ pub fn campaign(target: &str, seed: u64, runs: u64, procs: usize, max_len: usize
         json!({"engine": "libFuzzer (cargo-fuzz)", "processes": procs, "runs_per_process": runs, "executions": execs, "crashes": crashes, "timeouts_or_ooms": inconclusive, "max_len": max_len,
                "note": "campaigns are pinned by -seed/-runs only approximately; the saved failing input is the reproducible unit"}),
     );
-    if inconclusive > 0 {
+    if inconclusive > 0 && !hang_reported {
         st.oracle_bugs.push(format!("{inconclusive} libFuzzer time-outs/OOMs in target {target}: inconclusive"));
     }
     let _ = std::fs::remove_dir_all(&base);
